@@ -72,9 +72,9 @@ def queries(tier):
                        bounds='stream length == %d, block size 4 (substituted for 16384)' % S))
     FB = 8
     JOIN = '_ZN5phosg4joinISt5dequeINSt7__cxx1112basic_stringIcSt11char_traitsIcESaIcEEEvEEES7_RKT_.0'
-    cells = [(0, 0), (0, 1), (1, 1), (6, 1), (7, 0), (7, 1), (8, 1), (14, 1)] if tier == 'quick' else [(L, nl) for L in (0, 1, 5, 6, 7, 8, 13, 14, 15, 21, 22) for nl in (0, 1)]
+    cells = [(0, 0), (0, 1), (1, 1), (6, 1), (7, 0), (7, 1), (8, 1)] if tier == 'quick' else [(L, nl) for L in (0, 1, 5, 6, 7, 8, 13, 14, 15, 21, 22) for nl in (0, 1)]
     for L, nl in cells:
-        qs.append(dict(name='fgets_fb8_len%d_nl%d' % (L, nl), unit='fsfb8', harness='h_fgets.c', defs={'LEN': L, 'HAS_NL': nl, 'FB': FB}, unwind=max(L + 5, FB + 3), timeout=1500, mem_gb=7, flags=FS0, backend='cadical',
+        qs.append(dict(name='fgets_fb8_len%d_nl%d' % (L, nl), unit='fsfb8', harness='h_fgets.c', defs={'LEN': L, 'HAS_NL': nl, 'FB': FB}, unwind=max(L + 5, FB + 3), timeout=1800, mem_gb=(7 if L < 13 else 13), flags=FS0, backend='cadical',
                        unwindset='%s:%d' % (JOIN, L // (FB - 1) + 4),  # the join loop runs once per block
                        desc='phosg::fgets (block size 8) on a line of %d symbolic bytes %s, ::fgets per C contract: the whole line, nothing more' % (L, 'newline-terminated + 2 following bytes' if nl else 'ended by end of data'),
                        bounds='line length == %d, block size 8 (substituted for 256)' % L))
